@@ -20,7 +20,7 @@ LEVEL = "exploration"
 RULE = (
     "real IH5MFRecords with 1-5 containers from random histories (manifest_exts given at some commits, omitted at "
     "others); after EVERY commit the sidecar is checked against the on-disk user block (sha256, uuid), against the "
-    "in-memory user blocks (also after refused commits that carry extensions: unknown option / no open patch), against the "
+    "in-memory user blocks (also after refused commits that carry extensions: unknown option / no open patch; and after a session that ended without commit and was resumed), against the "
     "harness's own skeleton of the committed state (paths, kinds, attribute names, dataset patch_index computed by a raw "
     "per-container scan) and against the last given extensions. Then a stub is created from the newest manifest, "
     "compared (skeleton, all values Empty, merge refused), and an existence-based update history (create at fresh "
@@ -158,6 +158,15 @@ def one(rng, acc, d, record=True):
         elif r < 0.5:
             exts = {}
             kw["manifest_exts"] = {}
+        if c > 0 and rng.random() < 0.25:
+            # the session ends without committing (what a killed process leaves behind: the patch container without payload hash)
+            # and a new session resumes the interrupted patch: extensions of the last commit still hold until overridden
+            rec.close(commit=False)
+            rec = cls(d / "real" / "rec", rng.choice(["r+", "a"]))
+            acc.count("interrupted_sessions_resumed")
+            log.append(["interrupted-session-resumed"])
+            if not rec._has_writable:
+                return "resume-failed", "reopening a record with an uncommitted newest container in r+/a did not resume the patch"
         if rng.random() < 0.25:
             # a refused commit (unknown option) that carries extensions: nothing of it may stick
             try:
@@ -325,7 +334,7 @@ def run_unit(u, acc):
 
 def inconclusive(cov):
     c = cov["counters"]
-    return [f"monitor counter {k} is zero" for k in ("manifest_checks", "refused_commits", "stub_patch_exts_compared_nonempty", "stubs_compared", "stub_patches_joined") if not c.get(k)]
+    return [f"monitor counter {k} is zero" for k in ("manifest_checks", "refused_commits", "interrupted_sessions_resumed", "stub_patch_exts_compared_nonempty", "stubs_compared", "stub_patches_joined") if not c.get(k)]
 
 
 def replay(case, acc):
